@@ -100,6 +100,7 @@ fn dispatch(
         "pae" => ops_misc::pae(case),
         "pae_enum" => ops_misc::pae_enum(case),
         "serde" => ops_serde::serde_op(case),
+        "api_rt" => ops_serde::api_rt(case),
         "stmt" => ops_serde::stmt(case),
         "from_meta" => ops_serde::from_meta(case),
         "entry" => ops_entry::entry(case),
